@@ -41,11 +41,13 @@ def st_recipe(draw, spec):
     union_case_models = {tspec.strip(c)[1]["name"] for s in tspec.walk(spec) if s[0] == "union" for c in s[1]
                          if tspec.strip(c)[0] == "model"}
     for ms in model_specs(spec):
-        if draw(st.integers(0, 2)) != 0:
+        if draw(st.integers(0, 1)) != 0:
             continue
         names = [f["n"] for f in ms["fields"]]
         r = {"model": ms["name"]}
-        choice = draw(st.sampled_from(["style", "map", "as_list", "omit_default", "omit_default", "mixed", "nested"]))
+        has_defaults = any(f.get("d") for f in ms["fields"])
+        choice = draw(st.sampled_from(["style", "map", "as_list", "omit_default", "mixed", "nested"] +
+                                      (["omit_default"] * 4 if has_defaults else [])))
         if choice in ("style", "mixed"):
             r["name_style"] = draw(st.sampled_from([s.name for s in NameStyle]))
         if choice in ("map", "mixed") and names:
